@@ -487,4 +487,18 @@ def l5_programs():
     fn("unused_div", "i32", [["bin", "/", "p0", "p1", "i32"], ["ret", "p1"]])
     fn("shift_const_oob", "i32", [["const", "i32", 40], ["const", "i32", 1], ["bin", "<<", "%1", "%0", "i32"], ["ret", "p0"]])
     fn("mod_const_zero", "i32", [["const", "i32", 0], ["const", "i32", 5], ["bin", "%", "%1", "%0", "i32"], ["ret", "p0"]])
+    # conditional jumps between two constants (CJumpPass): every condition, signed / unsigned / float constants, a successor with a phi
+    # that keeps an incoming value from the branching block, and both targets equal
+    for ty, a, b in (("i32", -1, 1), ("i32", 3, 3), ("u8", 200, 100), ("u32", 4000000000, 5), ("i64", -(2 ** 40), 2 ** 40), ("f64", -0.0, 0.0), ("f64", 1.5, 1.25)):
+        for cond in ("==", "!=", "<", "<=", ">", ">="):
+            fn("cjmp_consts_%s_%s" % (ty, cond), "i32", [[["const", ty, a], ["const", ty, b], ["cjmp", "%0", cond, "%1", 1, 2]], [["ret", "p0"]], [["ret", "p1"]]], params=["i32", "i32"])
+    for cond in ("<", ">="):
+        fn("cjmp_consts_phi_" + cond, "i32", [[["const", "i32", 2], ["const", "i32", 7], ["cjmp", "%0", cond, "%1", 1, 2]], [["jmp", 2]],
+                                              [["phi", "i32", [[0, "p0"], [1, "p1"]]], ["bin", "+", "%2", "%2", "i32"], ["ret", "%3"]]], params=["i32", "i32"])
+        fn("cjmp_consts_loop_" + cond, "i32", [[["const", "i32", 2], ["const", "i32", 7], ["jmp", 1]],
+                                               [["phi", "i32", [[0, "p0"], [1, "%3"]]], ["bin", "+", "%2", "%0", "i32"], ["cjmp", "%0", cond, "%1", 2, 1]],
+                                               [["ret", "%3"]]], params=["i32", "i32"])
+    fn("cjmp_consts_same_target", "i32", [[["const", "i32", 1], ["const", "i32", 2], ["cjmp", "%0", "<", "%1", 1, 1]], [["ret", "p0"]]], params=["i32", "i32"])
+    fn("cjmp_folded_consts", "i32", [[["const", "i32", 1], ["const", "i32", 2], ["bin", "+", "%0", "%1", "i32"], ["cjmp", "%2", "==", "%1", 1, 2]], [["ret", "p0"]], [["ret", "p1"]]],
+       params=["i32", "i32"])
     return P
